@@ -35,10 +35,18 @@ func ToTS(t time.Time) TS {
 // ResSpec is one element of a target script: either an abstract result class
 // (Cls, made concrete by the runner with the run's seed) or a concrete result
 // (Kind/Code).
+//
+// Via (real HTTPDeliverer only) asks for a redirect: the first hop passes the
+// egress policy and answers Code (301/302/307/308) with a Location that the
+// policy of that delivery denies - by deny rule ("deny"), by CIDR deny rule
+// ("denycidr"), by scheme ("scheme"), by allowlist miss ("allow"), by DNS
+// rebind protection ("rebind") - or allows ("follow", the control case: the
+// redirect is followed and the second host answers 200).
 type ResSpec struct {
 	Cls  string `json:"cls,omitempty"`
 	Kind string `json:"kind,omitempty"` // status | neterr | timeout | denied
 	Code int    `json:"code,omitempty"`
+	Via  string `json:"via,omitempty"`
 }
 
 // TargetSpec describes one deliver target of the route under test.  Either
